@@ -495,3 +495,193 @@ Proof.
     apply scan_first; [exact Hm|]. intros r' Hin'. apply Hmax.
     apply in_app_iff in Hin'. apply in_app_iff. destruct Hin'; [now left| right; now right].
 Qed.
+
+(* ------------------------------------------------------------------ *)
+(** * registered state: invariant of Handle / HandleRemove / DefaultHandle *)
+
+Definition wf (st : rstate) : Prop :=
+  NoDup (map fst (st_routes st)) /\
+  forall k r, In (k, r) (st_routes st) -> r_pat r = k /\ new_route_regexp k = COk (r_parts r).
+
+Lemma map_set_in m k v x : In x (map_set m k v) -> x = (k, v) \/ In x m.
+Proof.
+  induction m as [|[k' v'] m IH]; cbn [map_set].
+  - intros [<-|[]]. now left.
+  - destruct (str_eqb k' k).
+    + intros [<-|H]; [now left| right; now right].
+    + intros [<-|H]; [right; now left|]. destruct (IH H); [now left| right; now right].
+Qed.
+Lemma map_set_keys m k v k0 : In k0 (map fst (map_set m k v)) -> k0 = k \/ In k0 (map fst m).
+Proof.
+  intros H. apply in_map_iff in H as (x & <- & Hx). apply map_set_in in Hx as [->|Hx]; [now left|].
+  right. now apply in_map.
+Qed.
+Lemma map_set_nodup m k v : NoDup (map fst m) -> NoDup (map fst (map_set m k v)).
+Proof.
+  induction m as [|[k' v'] m IH]; cbn [map_set map fst]; intros H.
+  - constructor; [intros []|constructor].
+  - inversion H as [|? ? Hni Hnd]; subst. destruct (str_eqb k' k) eqn:E.
+    + apply str_eqb_eq in E as ->. cbn [map fst]. now constructor.
+    + apply str_eqb_neq in E. cbn [map fst]. constructor; [|now apply IH].
+      intros Hin. apply map_set_keys in Hin as [->|Hin]; [congruence|contradiction].
+Qed.
+Lemma map_del_in m k x : In x (map_del m k) -> In x m.
+Proof.
+  induction m as [|[k' v'] m IH]; cbn [map_del]; [intros []|].
+  destruct (str_eqb k' k); [intros H; right; now apply IH|].
+  intros [<-|H]; [now left| right; now apply IH].
+Qed.
+Lemma map_del_nodup m k : NoDup (map fst m) -> NoDup (map fst (map_del m k)).
+Proof.
+  induction m as [|[k' v'] m IH]; cbn [map_del map fst]; intros H; [constructor|].
+  inversion H as [|? ? Hni Hnd]; subst. destruct (str_eqb k' k); [now apply IH|].
+  cbn [map fst]. constructor; [|now apply IH].
+  intros Hin. apply in_map_iff in Hin as (x & <- & Hx). apply map_del_in in Hx. apply Hni. now apply in_map.
+Qed.
+
+Theorem apply_op_wf st o : wf st -> wf (fst (apply_op st o)).
+Proof.
+  intros [Hnd Hr]. destruct o as [pat [h|]|pat|h]; cbn [apply_op]; try (split; assumption).
+  - destruct (new_route_regexp (filter_path pat)) as [cs| |] eqn:E; cbn [fst]; try (split; assumption).
+    split; cbn [st_routes].
+    + now apply map_set_nodup.
+    + intros k r Hin. apply map_set_in in Hin as [E1|Hin]; [|now apply Hr].
+      injection E1 as -> ->. cbn. now split.
+  - destruct (map_has (st_routes st) (filter_path pat)); cbn [fst]; [|split; assumption].
+    split; cbn [st_routes].
+    + now apply map_del_nodup.
+    + intros k r Hin. apply map_del_in in Hin. now apply Hr.
+Qed.
+
+Lemma init_wf : wf init_state.
+Proof. split; cbn; [constructor| intros k r []]. Qed.
+
+Theorem apply_ops_wf : forall os st, wf st -> wf (apply_ops st os).
+Proof.
+  unfold apply_ops. induction os as [|o os IH]; intros st H; cbn [fold_left]; [exact H|].
+  apply IH. now apply apply_op_wf.
+Qed.
+
+(* ------------------------------------------------------------------ *)
+(** * middlewares *)
+
+Lemma handlers_of_app a b : handlers_of (a ++ b) = handlers_of a ++ handlers_of b.
+Proof. unfold handlers_of. apply flat_map_app. Qed.
+
+Theorem run_chain_spec : forall mws h, run_chain mws h = spec_trace mws h.
+Proof.
+  unfold spec_trace. induction mws as [|[i p] mws IH]; intros h; cbn [run_chain passing_prefix].
+  - cbn. now rewrite app_nil_r.
+  - destruct p.
+    + rewrite IH. destruct (passing_prefix mws) as [ids pass]. cbn [map rev app].
+      rewrite map_app. cbn [map]. now rewrite !app_assoc.
+    + reflexivity.
+Qed.
+
+Lemma run_chain_one_handler : forall mws h,
+  Forall (fun m => snd m = true) mws -> handlers_of (run_chain mws (Some h)) = [h].
+Proof.
+  induction mws as [|[i p] mws IH]; intros h H; cbn [run_chain]; [reflexivity|].
+  inversion H as [|? ? Hp Hr]; subst. cbn in Hp. subst p.
+  change (MwIn i :: run_chain mws (Some h) ++ [MwOut i]) with ([MwIn i] ++ run_chain mws (Some h) ++ [MwOut i]).
+  rewrite !handlers_of_app, IH by assumption. reflexivity.
+Qed.
+
+(* ------------------------------------------------------------------ *)
+(** * ServeCOAP *)
+
+Theorem serve_select st mws order segs :
+  Permutation order (routes_of st) -> Forall (fun m => snd m = true) mws ->
+  let path := filter_path (path_of segs) in
+  (exists r, maximal_match (routes_of st) path r /\
+             handlers_of (fst (serve st mws order segs)) = [r_h r] /\
+             snd (serve st mws order segs) = match_result (Some r) path)
+  \/ ((forall r, In r (routes_of st) -> path_match r path = false) /\
+      snd (serve st mws order segs) = None /\
+      handlers_of (fst (serve st mws order segs)) = match st_default st with Some d => [d] | None => [] end).
+Proof.
+  intros Hp Hm path. unfold serve. fold path.
+  destruct (scan order path None O) as [r|] eqn:E.
+  - left. exists r. split.
+    + apply scan_exact. eauto.
+    + cbn [finish_serve fst snd]. split; [now apply run_chain_one_handler|reflexivity].
+  - right. split; [|split].
+    + intros r Hin. eapply scan_none; [exact E|]. eapply Permutation_in; [symmetry|]; eauto.
+    + reflexivity.
+    + cbn [finish_serve fst snd]. destruct (st_default st); [now apply run_chain_one_handler|reflexivity].
+Qed.
+
+(* the variables handed to the handler are the pieces of a decomposition of
+   the path along the pattern, one per variable *)
+Theorem match_result_vars r path :
+  path_match r path = true ->
+  exists vals, extract r path = Some vals /\ rdecomp (r_parts r) path vals /\
+               length vals = length (var_names (r_parts r)) /\
+               match_result (Some r) path = Some (path, r_pat r, vars_map (var_names (r_parts r)) vals []).
+Proof.
+  intros Hm. apply extract_iff_match in Hm as [vals E]. exists vals.
+  pose proof (extract_sound _ _ _ E) as Hd. repeat split; try assumption.
+  - eapply decomp_length; eauto.
+  - unfold match_result. now rewrite E.
+Qed.
+
+(* ------------------------------------------------------------------ *)
+(** * concurrency *)
+
+Lemma visit_in order m r : In r (visit order m) -> In r (map snd m).
+Proof.
+  unfold visit. intros H. apply in_flat_map in H as (i & _ & Hi).
+  destruct (nth_error m i) as [kv|] eqn:E; [|destruct Hi]. destruct Hi as [<-|[]].
+  apply in_map. eapply nth_error_In; eauto.
+Qed.
+
+Definition drec_ok (c0 : config) (sched : list nat) (d : drec) : Prop :=
+  d_sel d = scan (visit (d_order d) (d_routes d)) (d_path d) None O /\
+  exists s1 s2, sched = s1 ++ s2 /\ d_routes d = st_routes (c_st (run_conc c0 s1)).
+
+Lemma cstep_log c tid d : In d (c_log (cstep c tid)) ->
+  In d (c_log c) \/
+  (d_sel d = scan (visit (d_order d) (d_routes d)) (d_path d) None O /\ d_routes d = st_routes (c_st c)).
+Proof.
+  unfold cstep. destruct (nth_error (c_threads c) tid) as [t|]; [|now left].
+  destruct (t_jobs t) as [|[o|segs order] js]; [now left|now left|].
+  destruct (t_local t); [|now left]. cbn [c_log]. intros H. apply in_app_iff in H as [H|[<-|[]]]; [now left|].
+  right. cbn. split; reflexivity.
+Qed.
+
+Lemma run_conc_snoc c s t : run_conc c (s ++ [t]) = cstep (run_conc c s) t.
+Proof. unfold run_conc. now rewrite fold_left_app. Qed.
+
+Theorem run_conc_log c0 : c_log c0 = [] -> forall sched d,
+  In d (c_log (run_conc c0 sched)) -> drec_ok c0 sched d.
+Proof.
+  intros H0 sched. induction sched as [|t sched IH] using rev_ind; intros d Hin.
+  - cbn in Hin. rewrite H0 in Hin. destruct Hin.
+  - rewrite run_conc_snoc in Hin. apply cstep_log in Hin as [Hin|[Hs Hr]].
+    + destruct (IH d Hin) as (Hs & s1 & s2 & -> & Hr). split; [exact Hs|].
+      exists s1, (s2 ++ [t]). now rewrite app_assoc.
+    + split; [exact Hs|]. exists sched, [t]. split; [reflexivity|exact Hr].
+Qed.
+
+Lemma cstep_wf c tid : wf (c_st c) -> wf (c_st (cstep c tid)).
+Proof.
+  intros H. unfold cstep. destruct (nth_error (c_threads c) tid) as [t|]; [|exact H].
+  destruct (t_jobs t) as [|[o|segs order] js]; [exact H| cbn [c_st]; now apply apply_op_wf|].
+  destruct (t_local t); exact H.
+Qed.
+Lemma run_conc_wf c : wf (c_st c) -> forall sched, wf (c_st (run_conc c sched)).
+Proof.
+  intros H sched. induction sched as [|t sched IH] using rev_ind; [exact H|].
+  rewrite run_conc_snoc. now apply cstep_wf.
+Qed.
+
+(* lock discipline: a step that writes the guarded fields holds the write
+   lock; a step under the read lock leaves the registered state unchanged *)
+Lemma lock_discipline t m w : step_mode t = Some (m, w) -> w = true -> m = WLock.
+Proof. unfold step_mode. destruct (t_jobs t) as [|[o|s o] js]; intros [= <- <-]; [reflexivity|discriminate]. Qed.
+Lemma read_step_pure c tid t : nth_error (c_threads c) tid = Some t ->
+  step_mode t = Some (RLock, false) -> c_st (cstep c tid) = c_st c.
+Proof.
+  intros E. unfold step_mode, cstep. rewrite E. destruct (t_jobs t) as [|[o|s o] js]; try discriminate.
+  intros _. destruct (t_local t); reflexivity.
+Qed.
